@@ -145,4 +145,20 @@ BalBlk ==
      7 :> B(6, <<306>>, 50, FEE) @@
      8 :> B(3, <<305>>, 50, FEE)
 BalBlocks == 1..8
+(* C07 family: two competing branches (B heavier and valid, or invalid at its third block)            *)
+CrashTx ==
+    201 :> T(<<In(1, 1)>>, <<O(30, 0, 1, 1), O(19, 99900000, 2, 2)>>) @@
+    202 :> T(<<In(201, 1)>>, <<O(29, 99900000, 1, 1)>>) @@
+    203 :> T(<<In(1, 1)>>, <<O(49, 99900000, 3, 1)>>) @@
+    204 :> T(<<In(203, 1)>>, <<O(49, 99800000, 4, 2)>>)
+CrashBlk ==
+     1 :> B(0, <<201>>, 50, FEE) @@            \* A1
+     2 :> B(1, <<202>>, 50, FEE) @@            \* A2
+     3 :> B(0, <<203>>, 50, FEE) @@            \* B1
+     4 :> B(3, <<204>>, 50, FEE) @@            \* B2
+     5 :> B(4, <<>>, 50, 0) @@                 \* B3
+     6 :> B(4, <<201>>, 50, FEE) @@            \* B3x: invalid on this branch
+     7 :> B(2, <<>>, 50, 0) @@                 \* A3
+     8 :> B(5, <<>>, 50, 0)                    \* B4
+CrashBlocks == 1..8
 =============================================================================
